@@ -3,7 +3,7 @@
 cd /verif; mkdir -p build
 for id in "$@"; do
   s=$(date +%s)
-  timeout 4500 ./run $id thorough > build/thorough_$id.out 2>&1
+  timeout 5400 ./run $id thorough > build/thorough_$id.out 2>&1
   echo "=== $id thorough-full $(( $(date +%s)-s ))s" >> build/thorough_full.log
   grep -E "^VIOLATION|^  key=|tier=|BROKEN" build/thorough_$id.out | cut -c1-250 >> build/thorough_full.log
 done
